@@ -53,6 +53,98 @@ Theorem C16_same_id : forall a b,
   exists ka kb, addr_key a = Some ka /\ addr_key b = Some kb /\ fst ka = fst kb /\ snd ka = snd kb.
 Proof. exact addr_cmp_eq. Qed.
 
+(* The identity of a connection is the PAIR (local address, remote address), compared
+   structurally ([pair_key]: each address as (IP in 16-byte form, port)).  In EVERY state
+   whose registered connections were announced with pairwise distinct pairs, a frame
+   naming the pair of registered connection i is looked up as connection i ... *)
+Theorem C16_lookup_exact_on_distinct_pairs : forall cs reg l r i,
+  keyed_reg cs reg -> NoDup (map (ckey cs) reg) -> In i reg ->
+  pair_key l r = ckey cs i -> get_conn cs reg l r = GFound i.
+Proof. intros cs reg l r i. exact (get_conn_exact cs reg l r i). Qed.
+
+(* ... and a frame naming a pair nobody registered is looked up as nothing *)
+Theorem C16_lookup_unknown_pair : forall cs reg l r,
+  keyed_reg cs reg -> pair_key l r <> None -> ~ In (pair_key l r) (map (ckey cs) reg) ->
+  get_conn cs reg l r = GNone.
+Proof. intros cs reg l r. exact (get_conn_absent cs reg l r). Qed.
+
+(* for ALL lists of pairwise distinct pairs (any length, any addresses, however alike
+   their texts are): once announced, a frame naming pair number i - in any
+   representation of the same addresses - finds exactly the connection surfaced for
+   announcement i; its data reaches that connection and no other, its eof ends that
+   connection and no other *)
+Theorem C16_distinct_pairs_find_announced : forall ps i l r l' r',
+  keyed_pairs ps -> NoDup (pkeys ps) -> nth_error ps i = Some (l, r) ->
+  pair_key l' r' = pair_key l r ->
+  get_conn (s_conns (announce ps)) (s_reg (announce ps)) l' r' = GFound i.
+Proof. exact distinct_pairs_lookup. Qed.
+
+Theorem C16_distinct_pairs_unannounced_ignored : forall ps l r,
+  keyed_pairs ps -> pair_key l r <> None -> ~ In (pair_key l r) (pkeys ps) ->
+  get_conn (s_conns (announce ps)) (s_reg (announce ps)) l r = GNone.
+Proof. exact distinct_pairs_unknown. Qed.
+
+Theorem C16_distinct_pairs_data_and_eof_exact : forall ps i l r p,
+  keyed_pairs ps -> NoDup (pkeys ps) -> nth_error ps i = Some (l, r) ->
+  let s := announce ps in
+  (exists s', serv_msg s (MData l r p) = (s', RNone, [], Some i) /\
+     conn_at s' i = mkVc l r p false /\ (forall c, c <> i -> conn_at s' c = conn_at s c)) /\
+  (exists s', serv_msg s (MEof l r) = (s', RNone, [MEof l r], None) /\
+     conn_at s' i = mkVc l r [] true /\ (forall c, c <> i -> conn_at s' c = conn_at s c) /\
+     s_reg s' = remove_first i (s_reg s)).
+Proof. exact distinct_pairs_data_eof. Qed.
+
+(* a lookup through ONE derived key per connection (any key type, any key function) is
+   Connections.Get in every state if the key is injective on pairs ... *)
+Theorem C16_injective_key_is_faithful : forall K keq kf cs reg,
+  (forall l r l' r', pair_key l r <> None -> pair_key l' r' <> None ->
+     (keq (kf l r) (kf l' r') = true <-> pair_key l r = pair_key l' r')) ->
+  forall l r, keyed_reg cs reg -> pair_key l r <> None ->
+  get_conn cs reg l r = match get_by K keq kf cs reg l r with Some i => GFound i | None => GNone end.
+Proof. exact get_by_injective. Qed.
+
+(* ... and EVERY key that collapses two different pairs misroutes: with the two pairs
+   announced, the frame for the second is looked up as the first *)
+Theorem C16_collapsing_key_misroutes : forall K keq kf l1 r1 l2 r2,
+  pair_key l1 r1 <> None -> pair_key l2 r2 <> None -> pair_key l1 r1 <> pair_key l2 r2 ->
+  keq (kf l1 r1) (kf l2 r2) = true ->
+  let s := announce [(l1, r1); (l2, r2)] in
+  get_conn (s_conns s) (s_reg s) l2 r2 = GFound 1%nat /\
+  get_by K keq kf (s_conns s) (s_reg s) l2 r2 = Some 0%nat.
+Proof. exact collapsing_key_misroutes. Qed.
+
+(* Laddr.String() ++ Raddr.String() is such a key: it is NOT injective on pairs
+   ("10.0.0.5:222"+"210.1.1.1:40000" = "10.0.0.5:2222"+"10.1.1.1:40000"), which is why
+   the model compares the two addresses separately and never through one text *)
+Example C16_concat_key_injective_refuted :
+  exists l1 r1 l2 r2,
+    pair_key l1 r1 <> None /\ pair_key l2 r2 <> None /\
+    pair_key l1 r1 <> pair_key l2 r2 /\ concat_key l1 r1 = concat_key l2 r2.
+Proof.
+  exists cw_l1, cw_r1, cw_l2, cw_r2.
+  destruct concat_key_collides as (H1 & H2 & H3 & H4 & _). auto.
+Qed.
+
+Example C16_concat_key_misroutes :
+  let s := announce [(cw_l1, cw_r1); (cw_l2, cw_r2)] in
+  get_conn (s_conns s) (s_reg s) cw_l2 cw_r2 = GFound 1%nat /\
+  get_by bytes eqb_bytes concat_key (s_conns s) (s_reg s) cw_l2 cw_r2 = Some 0%nat.
+Proof. vm_compute. split; reflexivity. Qed.
+
+(* non-vacuity: the textually confusable pairs ARE pairwise distinct pairs, so the
+   theorems above apply to them (and to the v4 / v4-mapped spelling of the second) *)
+Example C16_distinct_pairs_nonvacuous :
+  let ps := [(cw_l1, cw_r1); (cw_l2, cw_r2); (cw_r1, cw_l1)] in
+  keyed_pairs ps /\ NoDup (pkeys ps) /\
+  get_conn (s_conns (announce ps)) (s_reg (announce ps))
+           (ATcp [0;0;0;0;0;0;0;0;0;0;255;255;10;0;0;5]%N 2222) cw_r2 = GFound 1%nat.
+Proof.
+  cbv zeta. split; [|split].
+  - repeat constructor; vm_compute; discriminate.
+  - repeat constructor; vm_compute; intuition discriminate.
+  - vm_compute. reflexivity.
+Qed.
+
 (* hello: a fresh, open, empty connection with the announced addresses is surfaced;
    existing connections are untouched *)
 Theorem C16_hello_surfaces_announced : forall s l r,
@@ -218,6 +310,13 @@ Print Assumptions C16_codec_roundtrip.
 Print Assumptions C16_owner_is_first_registered_match.
 Print Assumptions C16_no_owner_means_no_match.
 Print Assumptions C16_same_id.
+Print Assumptions C16_lookup_exact_on_distinct_pairs.
+Print Assumptions C16_lookup_unknown_pair.
+Print Assumptions C16_distinct_pairs_find_announced.
+Print Assumptions C16_distinct_pairs_unannounced_ignored.
+Print Assumptions C16_distinct_pairs_data_and_eof_exact.
+Print Assumptions C16_injective_key_is_faithful.
+Print Assumptions C16_collapsing_key_misroutes.
 Print Assumptions C16_hello_surfaces_announced.
 Print Assumptions C16_data_reaches_owner_only.
 Print Assumptions C16_unknown_id_ignored.
